@@ -4,6 +4,216 @@ import CffiVerif.Model.Init
 Helper lemmas for C20 (`ffi.new` zero-fills and initialises like assignment).
 -/
 namespace CffiVerif.Init
+open CffiVerif.Generated
+
+/-! ### reference forms
+
+The definitions of Model/Init.lean are built from expressions regenerated from the C source
+(`Generated/InitExprs.lean`).  The lemmas of this section show that, for the expressions as
+extracted, they equal the hand-written reference forms below, about which everything else is
+proved.  When the C source changes one of the expressions, the regenerated file changes and these
+lemmas are re-checked (and fail if the meaning changed). -/
+
+def newArrayLengthRef : Init → R (Nat × Bool)
+  | .seq items => .ok (items.length, false)
+  | .bytes b => .ok (b.length + 1, false)
+  | .int v =>
+      if v < -(2:Int)^63 ∨ v ≥ (2:Int)^63 then .error .overflow
+      else if v < 0 then .error .value
+      else .ok (v.toNat, true)
+  | _ => .error .type
+
+def addVarsizeRef (offset itemsize n cur : Nat) : R Nat :=
+  let size := wrap64 ((offset : Int) + wrap64 ((itemsize : Int) * (n : Int)))
+  if size < 0 then .error .overflow
+  else if itemsize ≠ 0 ∧ (size - (offset : Int)).tdiv (itemsize : Int) ≠ (n : Int) then .error .overflow
+  else .ok (if size.toNat > cur then size.toNat else cur)
+
+def tooManyRef (len : Option Nat) (n : Nat) : Bool :=
+  match len with
+  | some l => decide (n > l)
+  | none => false
+
+def bytesPayloadRef (len : Option Nat) (b : List UInt8) : List UInt8 :=
+  if len = some b.length then b else b ++ [0]
+
+def allocPtrRef (ty : Ty) (init : Option Init) : R (Nat × Option Nat) :=
+  match ty.size? with
+  | none => .error .type
+  | some sz0 =>
+    let sz1 := if ty.isCharPrim then 2 * sz0 else sz0
+    match ty with
+    | .agg _ fs =>
+        if fs.anyVar then
+          match init with
+          | none => .ok (sz1, some sz1)
+          | some i =>
+              if i.isCData then .ok (sz1, some sz1)
+              else
+                match prepassStruct fs i sz1 with
+                | .ok d => .ok (d, some d)
+                | .error e => .error e
+        else .ok (sz1, none)
+    | _ => .ok (sz1, none)
+
+def allocArrRef (isz : Nat) (len : Option Nat) (init : Option Init) : R (Nat × Option Nat × Option Init) :=
+  match len with
+  | some l => .ok (isz * l, none, init)
+  | none =>
+      match init with
+      | none => .error .type
+      | some i =>
+          match newArrayLength i with
+          | .error e => .error e
+          | .ok (n, wasInt) =>
+              let datasize := wrap64 ((n : Int) * (isz : Int))
+              if n > 0 ∧ datasize.tdiv (n : Int) ≠ (isz : Int) then .error .overflow
+              else .ok (datasize.toNat, some n, if wasInt then none else some i)
+
+def sizeofDerefRef (ty : Ty) (o : Owned) : Option Nat :=
+  match ty with
+  | .agg size fs => if fs.anyVar then o.length else some size
+  | _ => none
+
+def sizeofArrRef (isz : Nat) (len : Option Nat) (o : Owned) : Option Nat :=
+  match len with
+  | some l => some (l * isz)
+  | none => o.length.map (· * isz)
+
+theorem newArrayLength_eq_ref (x : Init) : newArrayLength x = newArrayLengthRef x := by
+  cases x with
+  | bytes b =>
+    simp only [newArrayLength, newArrayLengthRef, InitExprs.nalBytes]
+    congr 2
+  | int v =>
+    simp only [newArrayLength, newArrayLengthRef, InitExprs.nalNegative, decide_eq_true_eq]
+  | _ => rfl
+
+theorem addVarsize_body_eq (size : Int) (offset itemsize n cur : Nat) :
+    (if InitExprs.avOverflow size offset itemsize n = true then (.error .overflow : R Nat)
+     else .ok (if InitExprs.avUpdate size cur = true then size.toNat else cur)) =
+    (if size < 0 then .error .overflow
+     else if itemsize ≠ 0 ∧ (size - (offset : Int)).tdiv (itemsize : Int) ≠ (n : Int) then .error .overflow
+     else .ok (if size.toNat > cur then size.toNat else cur)) := by
+  simp only [InitExprs.avOverflow, InitExprs.avUpdate]
+  by_cases h0 : size < 0
+  · simp [h0]
+  · have hz : ((itemsize : Int) != 0) = decide (itemsize ≠ 0) := by
+      by_cases hi : itemsize = 0 <;> simp [hi]
+    simp only [h0, decide_false, Bool.false_or, if_false, hz, Bool.and_eq_true, decide_eq_true_eq,
+      bne_iff_ne, ne_eq]
+    split
+    · rfl
+    · congr 1
+      by_cases h1 : size.toNat > cur
+      · have : size > (cur : Int) := by omega
+        simp [h1, this]
+      · have : ¬ size > (cur : Int) := by omega
+        simp [h1, this]
+
+theorem addVarsize_eq_ref (offset itemsize n cur : Nat) :
+    addVarsize offset itemsize n cur = addVarsizeRef offset itemsize n cur :=
+  addVarsize_body_eq (wrap64 ((offset : Int) + wrap64 ((itemsize : Int) * (n : Int)))) offset itemsize n cur
+
+theorem tooMany_eq_ref (len : Option Nat) (n : Nat) : tooMany len n = tooManyRef len n := by
+  cases len with
+  | none => simp [tooMany, tooManyRef, ctLength, InitExprs.caTooMany]
+  | some l =>
+    simp only [tooMany, tooManyRef, ctLength, InitExprs.caTooMany]
+    have h0 : (l : Int) ≥ 0 := by omega
+    simp only [h0, decide_true, Bool.true_and]
+    by_cases h : n > l
+    · have : (n : Int) > (l : Int) := by omega
+      simp [h, this]
+    · have : ¬ (n : Int) > (l : Int) := by omega
+      simp [h, this]
+
+theorem bytesPayload_eq_ref (len : Option Nat) (b : List UInt8) :
+    bytesPayload len b = bytesPayloadRef len b := by
+  cases len with
+  | none =>
+    have : ((b.length : Int) != -1) = true := by simp only [bne_iff_ne, ne_eq]; omega
+    simp [bytesPayload, bytesPayloadRef, ctLength, InitExprs.caAddNul, this]
+  | some l =>
+    simp only [bytesPayload, bytesPayloadRef, ctLength, InitExprs.caAddNul, Option.some.injEq]
+    by_cases h : l = b.length
+    · subst h; simp
+    · have : ((b.length : Int) != (l : Int)) = true := by simp only [bne_iff_ne, ne_eq]; omega
+      simp [h, this]
+
+theorem allocPtr_eq_ref (ty : Ty) (init : Option Init) : allocPtr ty init = allocPtrRef ty init := by
+  unfold allocPtr allocPtrRef
+  cases hs : ty.size? with
+  | none => simp [Ty.ctSize, hs, InitExprs.npUnknownSize]
+  | some sz0 =>
+    have h1 : InitExprs.npUnknownSize ty.ctSize = false := by
+      simp [Ty.ctSize, hs, InitExprs.npUnknownSize]
+    have h2 : (InitExprs.npCharSize ty.ctSize).toNat = 2 * sz0 := by
+      simp only [Ty.ctSize, hs, InitExprs.npCharSize]; omega
+    have h3 : ty.ctSize.toNat = sz0 := by simp [Ty.ctSize, hs]
+    simp only [h1, Bool.false_eq_true, if_false, h2, h3]
+    cases ty with
+    | prim p => rfl
+    | arr _ _ _ => rfl
+    | agg size fs =>
+      simp only
+      split
+      · cases init with
+        | none => simp [InitExprs.npPrepassGuard]
+        | some i =>
+          cases hc : i.isCData <;> simp only [InitExprs.npPrepassGuard, hc, Option.isSome_some, Bool.not_false,
+            Bool.not_true, Bool.and_true, Bool.and_false, if_true, Bool.false_eq_true, if_false]
+          cases prepassStruct fs i (if (Ty.agg size fs).isCharPrim = true then 2 * sz0 else sz0) <;> rfl
+      · rfl
+
+theorem allocArr_eq_ref (isz : Nat) (len : Option Nat) (init : Option Init) :
+    allocArr isz len init = allocArrRef isz len init := by
+  unfold allocArr allocArrRef
+  cases len with
+  | some l =>
+    have : InitExprs.npOpenArray ((isz * l : Nat) : Int) = false := by
+      simp only [InitExprs.npOpenArray, decide_eq_false_iff_not]; omega
+    simp only [this, Bool.false_eq_true, if_false, Int.toNat_natCast]
+  | none =>
+    simp only [InitExprs.npOpenArray, show ((-1 : Int) < 0) from by omega, decide_true, if_true]
+    cases init with
+    | none => rfl
+    | some i =>
+      simp only
+      cases newArrayLength i with
+      | error e => rfl
+      | ok q =>
+        obtain ⟨n, wasInt⟩ := q
+        simp only [InitExprs.npArrSize, InitExprs.npArrOverflow, Bool.and_eq_true, decide_eq_true_eq,
+          bne_iff_ne, ne_eq]
+        have : ((n : Int) > 0) ↔ n > 0 := by omega
+        simp only [this]
+
+theorem sizeofDeref_eq_ref (ty : Ty) (o : Owned) : sizeofDeref ty o = sizeofDerefRef ty o := by
+  cases ty with
+  | agg size fs =>
+    simp only [sizeofDeref, sizeofDerefRef, varByteSize]
+    cases fs.anyVar with
+    | false => simp [InitExprs.szFallback]
+    | true =>
+      cases o.length with
+      | none => simp
+      | some n =>
+        have : InitExprs.szFallback (n : Int) = false := by
+          simp only [InitExprs.szFallback, decide_eq_false_iff_not]; omega
+        simp [this]
+  | _ => rfl
+
+theorem szArray_nat (a b : Nat) : (InitExprs.szArray a b).toNat = a * b := by
+  have : ((a : Int) * (b : Int)) = ((a * b : Nat) : Int) := by push_cast; rfl
+  simp only [InitExprs.szArray, this, Int.toNat_natCast]
+
+theorem sizeofArr_eq_ref (isz : Nat) (len : Option Nat) (o : Owned) :
+    sizeofArr isz len o = sizeofArrRef isz len o := by
+  cases len with
+  | some l => simp only [sizeofArr, sizeofArrRef, szArray_nat]
+  | none => simp only [sizeofArr, sizeofArrRef, szArray_nat]
+
 
 /-! ### stores -/
 
@@ -326,7 +536,8 @@ theorem addVarsize_key {o isz n : Nat} {size : Int} (ho : o < 2^63)
 
 theorem addVarsize_sound {o isz n cur r : Nat} (ho : o < 2^63)
     (h : addVarsize o isz n cur = .ok r) : cur ≤ r ∧ o + isz * n ≤ r := by
-  unfold addVarsize at h
+  rw [addVarsize_eq_ref] at h
+  unfold addVarsizeRef at h
   simp only at h
   generalize hsz : wrap64 ((o : Int) + wrap64 ((isz : Int) * (n : Int))) = size at h
   split at h
@@ -481,26 +692,27 @@ theorem bytes_plan_fits (n off : Nat) (item : Ty) (isz l : Nat) (b : List UInt8)
     AllFit n (if item.isByteLike = true then
         if tooMany (some l) b.length = true then [Op.fail Err.index]
         else
-          if (item.isBool && (if some l = some b.length then b else b ++ [0]).any fun c => decide (c > 1)) = true
+          if (item.isBool && (bytesPayload (some l) b).any fun c => decide (c > 1)) = true
           then [Op.fail Err.value]
-          else [Op.store off (if some l = some b.length then b else b ++ [0])]
+          else [Op.store off (bytesPayload (some l) b)]
       else [Op.fail Err.type]) := by
-  have hp : ¬ (b.length > l) → (if some l = some b.length then b else b ++ [0]).length ≤ l := by
+  have hp : ¬ (b.length > l) → (bytesPayload (some l) b).length ≤ l := by
     intro htm
+    rw [bytesPayload_eq_ref, bytesPayloadRef]
     split
     · rename_i he; simp only [Option.some.injEq] at he; omega
     · rename_i hne
       simp only [Option.some.injEq] at hne
       simp only [List.length_append, List.length_singleton]
       omega
-  generalize (if some l = some b.length then b else b ++ [0]) = payload at hp ⊢
+  generalize bytesPayload (some l) b = payload at hp ⊢
   by_cases hbl : item.isByteLike = true
   · have := byteLike_size hbl h4
     subst this
     simp only [hbl, if_true]
     by_cases htm : tooMany (some l) b.length = true
     · simp [htm]
-    · have hl := hp (by simpa [tooMany] using htm)
+    · have hl := hp (by simpa [tooMany_eq_ref, tooManyRef] using htm)
       have htm' : tooMany (some l) b.length = false := by simpa using htm
       rw [htm']
       simp only [Bool.false_eq_true, if_false]
@@ -540,7 +752,7 @@ theorem plan_fits_fixed (n : Nat) : ∀ (init : Init) (off : Nat) (ty : Ty) (fc 
         · split
           · simp
           · rename_i htm
-            simp only [tooMany, decide_eq_true_eq] at htm
+            simp only [tooMany_eq_ref, tooManyRef, decide_eq_true_eq] at htm
             refine planItems_fits_fixed n items off item isz h1 h2 h3 h4 ?_
             have : items.length * isz ≤ isz * l := by
               rw [Nat.mul_comm]; exact Nat.mul_le_mul_left _ (by omega)
@@ -548,7 +760,7 @@ theorem plan_fits_fixed (n : Nat) : ∀ (init : Init) (off : Nat) (ty : Ty) (fc 
         · split
           · simp
           · rename_i htm
-            simp only [tooMany, decide_eq_true_eq] at htm
+            simp only [tooMany_eq_ref, tooManyRef, decide_eq_true_eq] at htm
             refine planItems_fits_fixed n items off item isz h1 h2 h3 h4 ?_
             have : items.length * isz ≤ isz * l := by
               rw [Nat.mul_comm]; exact Nat.mul_le_mul_left _ (by omega)
@@ -689,7 +901,8 @@ end
 /-! ### the var-size pre-pass bounds every store -/
 
 theorem addVarsize_ge_cur {o isz n cur r : Nat} (h : addVarsize o isz n cur = .ok r) : cur ≤ r := by
-  unfold addVarsize at h
+  rw [addVarsize_eq_ref] at h
+  unfold addVarsizeRef at h
   simp only at h
   split at h
   · cases h
@@ -780,21 +993,21 @@ theorem plan_fits_open (n : Nat) (x : Init) (off : Nat) (info : FieldInfo) (item
   rcases hb : info.bits with _ | ⟨sh, bs⟩
   · cases x with
     | seq items =>
-      simp only [newArrayLength] at hp
+      simp only [newArrayLength_eq_ref, newArrayLengthRef] at hp
       have hs := (addVarsize_sound hoff hp).2
-      simp only [plan, tooMany, Bool.false_eq_true, if_false]
+      simp only [plan, tooMany_eq_ref, tooManyRef, Bool.false_eq_true, if_false]
       refine planItems_fits_fixed n items (off + info.off) item isz h1 h2 h3 h4 ?_
       rw [Nat.mul_comm]; omega
     | bytes b =>
-      simp only [newArrayLength] at hp
+      simp only [newArrayLength_eq_ref, newArrayLengthRef] at hp
       have hs := (addVarsize_sound hoff hp).2
-      simp only [plan, tooMany, Bool.false_eq_true, if_false]
+      simp only [plan, tooMany_eq_ref, tooManyRef, Bool.false_eq_true, if_false]
       by_cases hbl : item.isByteLike = true
       · have := byteLike_size hbl h4
         subst this
         simp only [hbl, if_true]
         have hne : ¬ ((none : Option Nat) = some b.length) := by simp
-        rw [if_neg hne]
+        rw [bytesPayload_eq_ref, bytesPayloadRef, if_neg hne]
         split
         · simp
         · simp only [allFit_single, Op.fitsIn, decide_eq_true_eq, List.length_append,
@@ -962,7 +1175,8 @@ end
 
 theorem newArrayLength_err {x : Init} {e : Err} (h : newArrayLength x = .error e) :
     e = .overflow ∨ e = .value ∨ e = .type := by
-  cases x <;> simp only [newArrayLength] at h
+  rw [newArrayLength_eq_ref] at h
+  cases x <;> simp only [newArrayLengthRef] at h
   · split at h
     · cases h; simp
     · split at h
@@ -976,7 +1190,8 @@ def PreErrOk (e : Err) : Prop := e ≠ .oob
 
 theorem addVarsize_err {o isz n cur : Nat} {e : Err} (h : addVarsize o isz n cur = .error e) :
     e = .overflow := by
-  unfold addVarsize at h
+  rw [addVarsize_eq_ref] at h
+  unfold addVarsizeRef at h
   simp only at h
   split at h
   · cases h; rfl
@@ -1029,7 +1244,7 @@ theorem prepassField_errOk : ∀ (x : Init) (info : FieldInfo) (ty : Ty) (cur : 
       cases len with
       | some l => simp [prepassField] at h
       | none =>
-        simp only [prepassField, newArrayLength] at h
+        simp only [prepassField, newArrayLength_eq_ref, newArrayLengthRef] at h
         exact addVarsize_errOk h
     | agg size fs =>
       simp only [prepassField] at h
@@ -1050,7 +1265,7 @@ theorem prepassField_errOk : ∀ (x : Init) (info : FieldInfo) (ty : Ty) (cur : 
       cases len with
       | some l => simp [prepassField] at h
       | none =>
-        simp only [prepassField, newArrayLength] at h
+        simp only [prepassField, newArrayLength_eq_ref, newArrayLengthRef] at h
         cases h
         exact (by decide : Err.type ≠ Err.oob)
     | agg size fs =>
@@ -1144,7 +1359,8 @@ theorem addVarsize_exact (o isz n cur : Nat) (ho : o < 2^63) :
       rw [hP]; exact wrap64_id (by omega) (by omega)
     have hs : wrap64 ((o : Int) + wrap64 ((isz : Int) * (n : Int))) = ((o + isz * n : Nat) : Int) := by
       rw [hw, wrap64_id (by omega) (by omega)]; push_cast; rfl
-    unfold addVarsize
+    rw [addVarsize_eq_ref]
+    unfold addVarsizeRef
     simp only [hs]
     have h1 : ¬ (((o + isz * n : Nat) : Int) < 0) := by omega
     have h3 : ¬ (isz ≠ 0 ∧ (((o + isz * n : Nat) : Int) - (o : Int)).tdiv (isz : Int) ≠ (n : Int)) := by
@@ -1159,7 +1375,8 @@ theorem addVarsize_exact (o isz n cur : Nat) (ho : o < 2^63) :
     | error e => rw [addVarsize_err h]
     | ok r =>
       exfalso
-      unfold addVarsize at h
+      rw [addVarsize_eq_ref] at h
+      unfold addVarsizeRef at h
       simp only at h
       generalize hsz : wrap64 ((o : Int) + wrap64 ((isz : Int) * (n : Int))) = size at h
       have hlt : size < (2:Int)^63 := by rw [← hsz]; exact wrap64_lt _
@@ -1205,7 +1422,8 @@ theorem newp_ptr_ok {limit : Nat} {ty : Ty} {init : Init} {o : Owned}
 theorem allocArr_open_size {isz : Nat} {i : Init} {datasize : Nat} {length : Option Nat} {init' : Option Init}
     (h : allocArr isz none (some i) = .ok (datasize, length, init')) :
     ∃ n, length = some n ∧ datasize = n * isz := by
-  simp only [allocArr] at h
+  rw [allocArr_eq_ref] at h
+  simp only [allocArrRef] at h
   cases hn : newArrayLength i with
   | error e => rw [hn] at h; cases h
   | ok q =>
